@@ -248,3 +248,19 @@ pub fn run(tier: Tier, seed: u64) -> i32 {
     report.assume("usernames and session keys come from alphabets");
     report.finish()
 }
+
+/// Replay of one recorded server-side decision in the module named in the scenario.
+pub fn replay(report: &Report, scenario: &str, r: &serde_json::Value) -> bool {
+    let (user, key, ss, cs, proof) = match (r["username"].as_str(), r["session_key"].as_str(), r["server_seed"].as_u64(), r["client_seed"].as_u64(), r["presented_proof"].as_str()) {
+        (Some(u), Some(k), Some(s), Some(c), Some(p)) => (u, mc::util::unhex_n::<40>(k), s as u32, c as u32, mc::util::unhex_n::<20>(p)),
+        _ => return false,
+    };
+    let ctr = Ctr { cases: AtomicU64::new(0), accepted: AtomicU64::new(0), rejected: AtomicU64::new(0) };
+    match scenario.split("::").next().unwrap_or("") {
+        "vanilla" => server_case::<V>(report, &ctr, user, &key, ss, proof, cs, "replay"),
+        "tbc" => server_case::<T>(report, &ctr, user, &key, ss, proof, cs, "replay"),
+        "wrath" => server_case::<W>(report, &ctr, user, &key, ss, proof, cs, "replay"),
+        _ => return false,
+    }
+    true
+}
